@@ -30,6 +30,14 @@
      scc[x] sec[x]  (x<=copy && copy<=x) and (x==copy) from grol source
      xc[x] xe[x]    cmp / eq between the constructed object x and the value the interpreter makes
                  of the source text of x (the copy that was written down)
+     yac[x] yae[x]  cmp / eq between the value the source text of x had when it was read FIRST in the
+                 session and the value of the SAME text read again (the constructed objects of the two
+                 readings): "again" in a later input of the session; ytc yte "twice": twice more in one
+                 input ([S, S], both against the first reading); yvc yve "eval": through eval("S"); yfc yfe
+                 "fresh": in another interpreter state of the same process; ylc yle "late": in the same
+                 session after the whole table was recorded
+     yp[x]       how many of the source-level observations of the pairs (x, x) and (x, next of x) come out
+                 differently when the very same inputs are evaluated again at the end of the session
      big[x] sbig[x] the index whose value comes back when x is looked up in ONE map that
                  holds every value of U as key, set in index order, with its index as value
                  (0 = not found, -1 = panic): constructed / from a map literal in source
@@ -84,6 +92,13 @@
                     constructed object (copy_equal / copy_equivalent "written"), and every
                     other member of the universe that is the same value (same_value_equal:
                     built differently, written in another notation, or made in another epoch)
+     determinism    a text denotes one value: the same source text read again - in a later input, twice in
+                    one input, through eval, in another interpreter state, at the end of the session - is a
+                    copy of what it was the first time (reread_equal, reread_equivalent: == and cmp = 0
+                    between the readings), and the same comparison asked again gives the same answers
+                    (answers_repeat).  What a text evaluates to the first time is what the text means
+                    (the harness calibrates its notation on it); a later reading that differs is not a
+                    copy of the value any more.
      min / max      return one of their arguments, a smallest / largest one
      map keys       y is found under key x exactly when cmp[x][y] = 0; in a map holding all
                     values, looking up x gives a value that was stored under a key
@@ -145,6 +160,9 @@ Built(a, h)  == [t |-> a.t, v |-> a.v, how |-> h]        \* the same container, 
 Written(a, h) == [t |-> a.t, v |-> a.v, how |-> h]       \* the same number, written in another notation
 Listed(prs, h) == [t |-> "map", v |-> prs, how |-> h]    \* a map given by its pairs in the order in which they are set
 At(a, e)     == a @@ [ep |-> e]                          \* the same value, made in epoch e
+\* the sum l + r of the map of the pairs l and the map of the pairs r (the operands may share keys: the pairs of
+\* r are set after those of l); `cut` tells where the list of pairs is cut into the two operands
+Sum(l, r)    == [t |-> "map", v |-> l \o r, how |-> "merged", cut |-> Len(l)]
 
 P53    == "9007199254740992"     \* 2^53
 P53p1  == "9007199254740993"     \* 2^53 + 1: not a float64
@@ -168,6 +186,41 @@ Range9(last) == <<I("1"), I("2"), I("3"), I("4"), I("5"), I("6"), I("7"), I("8")
 Map5(last) == << <<I("1"), I("1")>>, <<I("2"), I("2")>>, <<I("3"), I("3")>>, <<I("4"), I("4")>>, <<I("5"), I(last)>> >>
 
 Six == << <<I("3"), I("3")>> >> \o Map5("5") \o << <<I("0"), I("0")>> >>   \* 3 is listed twice: six entries
+
+
+\* ------------------------------------------------------------------ sums of maps whose operands meet or overlap
+\* left operand + right operand, every kind of overlap at the boundary between the two sorted operands: the
+\* smallest key of the right one is the greatest key of the left one (the same key / an order-equivalent key of
+\* another type, 5 and 5.0), lies above it, inside the left operand, and the same at the other end (the greatest
+\* key of the right operand is / is below the smallest key of the left one); operands of the small and of the big
+\* representation (more than 4 keys) on either side.  The values of the right operand are strings, so the value
+\* that survives under a shared key is visible.  Each sum comes with two twins: the literal of the resulting map
+\* and the map that received the same pairs by assignments in the same order.
+F5 == "4014000000000000"   F4 == "4010000000000000"
+Rv == S("r")
+L4  == SubSeq(Map5("5"), 1, 4)
+L5  == Map5("5")
+L5f == L4 \o << <<F(F5), I("5")>> >>                \* the greatest key is the float 5.0
+Seams == <<
+  <<L5,  << <<I("5"), Rv>>, <<I("6"), Rv>> >> >>,                   \* big + small: the same key at the seam
+  <<L5,  << <<F(F5), Rv>> >> >>,                                     \* an order-equivalent key of another type at the seam
+  <<L5f, << <<I("5"), Rv>>, <<I("6"), Rv>> >> >>,                   \* .. the other way round
+  <<L5,  << <<I("6"), Rv>>, <<I("7"), Rv>> >> >>,                   \* the right operand begins above the left one
+  <<L5,  << <<I("4"), Rv>>, <<I("6"), Rv>> >> >>,                   \* begins inside it
+  <<L5,  << <<I("0"), Rv>>, <<I("1"), Rv>> >> >>,                   \* ends at the smallest key of the left one
+  <<L5,  << <<I("-1"), Rv>>, <<I("0"), Rv>> >> >>,                  \* ends below it
+  <<L5,  << <<I("5"), Rv>>, <<I("6"), Rv>>, <<I("7"), Rv>>, <<I("8"), Rv>>, <<I("9"), Rv>> >> >>,   \* big + big at the seam
+  <<L5,  << <<F(FOne), Rv>>, <<I("3"), Rv>>, <<F(F5), Rv>> >> >>,   \* both ends and the middle shared
+  <<L4,  << <<I("4"), Rv>>, <<I("5"), Rv>> >> >>,                   \* small + small at the seam, the sum is big
+  <<L4,  << <<F(F4), Rv>>, <<I("5"), Rv>>, <<I("6"), Rv>>, <<I("7"), Rv>>, <<I("8"), Rv>> >> >>,    \* small + big at the seam
+  << << <<I("5"), I("5")>>, <<I("6"), I("6")>> >>, [k \in 1..5 |-> <<L5[k][1], Rv>>] >> >>          \* small + big that ends at the seam
+SeamSum(k)   == Sum(Seams[k][1], Seams[k][2])
+SeamLit(k)   == M(Seams[k][1] \o Seams[k][2])
+SeamGrown(k) == Listed(Seams[k][1] \o Seams[k][2], "grown")
+Tup(f) == f \o <<>>                                 \* the function over 1..n as a tuple (evaluated once)
+SeamSums  == Tup([k \in 1..Len(Seams) |-> SeamSum(k)])
+SeamLits  == Tup([k \in 1..Len(Seams) |-> SeamLit(k)])
+SeamGrowns == Tup([k \in 1..Len(Seams) |-> SeamGrown(k)])
 
 UniverseQuick == <<
   \* integers: small, around 2^53, around 2^63
@@ -209,7 +262,9 @@ UniverseQuick == <<
   \* six entries as small + big, as big + small and grown in another order, next to the literals (one
   \* array of the three maps against one array of three literals: two values instead of six)
   A(<<Listed(Six, "merged_head"), Listed(Six, "merged_tail"), Listed(Six, "grown")>>),
-  A(<<M(Six), M(Six), M(Six)>>) >>
+  A(<<M(Six), M(Six), M(Six)>>),
+  \* the sums of maps that meet or overlap (Seams), their literals and their grown twins: one array each
+  A(SeamSums), A(SeamLits), A(SeamGrowns) >>
 
 UniverseMore == <<
   I("2"), I("-9007199254740993"), I("9007199254740994"), I("-9007199254740992"),
@@ -247,6 +302,8 @@ UniverseMore == <<
   M(<< <<S("a"), I("1")>>, <<S("b"), I("2")>>, <<S("c"), I("3")>>, <<S("d"), I("4")>>, <<S("e"), I("5")>> >>),
   A(<<Listed(<< <<I("5"), I("5")>>, <<I("4"), I("4")>>, <<I("3"), I("3")>>, <<I("2"), I("2")>>, <<I("1"), I("1")>> >>, "grown")>>),
   A(<<M(Map5("5"))>>) >>
+  \* every sum of Seams as a value of its own, next to its literal
+  \o SeamSums \o SeamLits
 
 OrderUniverse == IF Tier = "quick" THEN UniverseQuick ELSE UniverseQuick \o UniverseMore
 
@@ -326,6 +383,9 @@ ModelBatch(UU) ==
       mn |-> MN, mx |-> MX,
       cc |-> [p \in D |-> 0], ec |-> [p \in D |-> 1], scc |-> [p \in D |-> 1], sec |-> [p \in D |-> 1],
       xc |-> [p \in D |-> 0], xe |-> [p \in D |-> 1],
+      yac |-> [p \in D |-> 0], yae |-> [p \in D |-> 1], ytc |-> [p \in D |-> 0], yte |-> [p \in D |-> 1],
+      yvc |-> [p \in D |-> 0], yve |-> [p \in D |-> 1], yfc |-> [p \in D |-> 0], yfe |-> [p \in D |-> 1],
+      ylc |-> [p \in D |-> 0], yle |-> [p \in D |-> 1], yp |-> [p \in D |-> 0],
       big |-> BG, sbig |-> BG, bigr |-> BR, sbigr |-> BR,
       gbig |-> BG, sgbig |-> BG, gbigr |-> BR, sgbigr |-> BR]
 
@@ -450,7 +510,20 @@ MinMaxAt(R, k, p, q) ==
 
 \* --- per value (evaluated at p = q)
 BigFields == <<"big", "sbig", "bigr", "sbigr", "gbig", "sgbig", "gbigr", "sgbigr">>
+\* the routes by which the source text of a value is read again, and the fields with cmp / eq of (first reading, this one)
+Routes == <<"again", "twice", "eval", "fresh", "late">>
+RouteFields == << <<"yac", "yae">>, <<"ytc", "yte">>, <<"yvc", "yve">>, <<"yfc", "yfe">>, <<"ylc", "yle">> >>
+ASSUME Len(Routes) = Len(RouteFields)
+RereadAt(R, k, p) ==
+  Flat([f \in 1..Len(Routes) |->
+          LET c == R[RouteFields[f][1]][p]  e == R[RouteFields[f][2]][p] IN
+          One(c # 99 /\ e # 9, "total", k, p, p, Routes[f])
+          \o One(e \in {1, 9}, "reread_equal", k, p, p, Routes[f])      \* 8: one reading is a value, the other none
+          \o One(c \in {0, 99}, "reread_equivalent", k, p, p, Routes[f])], 1)
+  \o One(R.yp[p] = 0, "answers_repeat", k, p, p, "")
+
 ValueAt(R, k, p) ==
+  RereadAt(R, k, p) \o
   Flat(<< One(R.cc[p] # 99 /\ R.ec[p] # 9 /\ R.scc[p] # 9 /\ R.sec[p] # 9, "total", k, p, p, "copy"),
           One(R.xc[p] # 99 /\ R.xe[p] # 9, "total", k, p, p, "written"),
           One(R.scc[p] # 8 /\ R.sec[p] # 8, "answered", k, p, p, "copy"),
